@@ -153,6 +153,17 @@ def run(R):
 
     # REVISIT: flag reset
     revisit_rules(R, ro, "C04.REVISIT")
+    # every future inside a yielded structure is recorded: one that is not is computed by a nested synchronous value() when the
+    # task is continued - a flush while sibling tasks have not even started
+    from .structs import extract_rules, agree_rule
+    from .c03 import unwrap_kinds_only
+    ek, _d, _f = extract_rules(R, "C04")
+    agree_rule(R, "C04", unwrap_kinds_only(R), ek, "await")
+    # printing a pending batch (debug dumps, user hooks) must not flush it
+    from .c18 import diag_closure, diag_purity
+    _roots, allm = diag_closure(R)
+    diag_purity(R, ro, allm, "C04.DIAG-PURE")
+    no_sync_in_library_tasks(R, "C04.YIELD-ONLY")
     # blocked-all (is_blocked waits for every dependency)
     common.blocked_all(R, ro, "C04.BLOCKED-ALL")
     common.step_only_unblocked(R, ro, "C04.STEP-UNBLOCKED")
@@ -219,3 +230,43 @@ def revisit_rules(R, ro, rule):
         R.check(p is None, rule, hm.qualname + ":first-visit-nopop", R.site(hm, t.ast),
                 "the task stays on the stack below the dependencies it schedules",
                 "the task can be popped in the same visit that schedules its dependencies", hcfg.fmt_path(p) if p else None)
+
+
+def asynq_decorated(R):
+    """Module-level functions / methods of the package decorated with @asynq(...) / @async_proxy(...):
+    qualname -> (FuncInfo, is_pure)"""
+    out = {}
+    for f in R.repo.all_functions():
+        for d in f.node.decorator_list:
+            if isinstance(d, ast.Call) and q.call_name(d) in ("asynq", "async_proxy", "decorators.asynq"):
+                pure = any(k.arg == "pure" and q.const_value(k.value) is True for k in d.keywords)
+                out[f.qualname] = (f, pure)
+    return out
+
+
+def no_sync_in_library_tasks(R, rule):
+    """Inside the library's own @asynq task bodies no asynq function is called synchronously (a
+    blocking nested wait_for): library helpers are yield-only, so that a yield-only user program
+    stays yield-only."""
+    dec = asynq_decorated(R)
+    by_name = {}
+    for qn, (f, pure) in dec.items():
+        if f.parent is None and f.cls is None and not pure:
+            by_name.setdefault(f.name, f)
+    n = 0
+    for qn, (f, pure) in sorted(dec.items()):
+        if f.module.name not in ("tools", "generator"):
+            continue
+        n += 1
+        bad = []
+        for c in q.calls(f.node):
+            nm = q.call_name(c)
+            if nm in by_name and by_name[nm].module is f.module or (nm in by_name and nm in f.module.imports):
+                bad.append(q.src(c)[:50])
+            if nm and nm.endswith(".value") and not nm.startswith(("self.", "future", "task")) and isinstance(q.attr_call(c)[0], ast.Call) and (q.call_name(q.attr_call(c)[0]) or "").endswith(".asynq"):
+                bad.append(q.src(c)[:50])
+        R.check(not bad, rule, f.qualname, R.site(f),
+                "%s awaits other asynq functions only by yielding their .asynq() tasks" % f.name,
+                "the library task %s calls an asynq function synchronously (%s): a blocking nested wait_for inside a task flushes batches while sibling "
+                "tasks of the user's yield-only program have not started" % (f.qualname, "; ".join(bad)))
+    R.need(n >= 10, "fewer library tasks than confirmed by hand (%d < 10)" % n)
